@@ -616,12 +616,18 @@ func (f *framer) parseErrorFrame() frame {
 		received := f.readInt()
 		blockfor := f.readInt()
 		writeType := f.readString()
+		var contentions uint16
+		if f.proto > protoVersion4 && writeType == "CAS" {
+			// protocol v5: <contentions> is only present for the CAS write type
+			contentions = f.readShort()
+		}
 		return &RequestErrWriteTimeout{
 			errorFrame:  errD,
 			Consistency: cl,
 			Received:    received,
 			BlockFor:    blockfor,
 			WriteType:   writeType,
+			Contentions: contentions,
 		}
 	case ErrCodeReadTimeout:
 		cl := f.readConsistency()
